@@ -1000,3 +1000,16 @@ func ruleValidAcceptsTheNullMarkerEverywhere(c *eng.Ctx) {
 	w := q.Find()
 	c.Check(w == nil && len(notNull) > 0, "valid() accepts the null marker -1 for every size-prefixed field", c.P.Pos(fn.Pos()), "size == -1 is accepted before `size < 0` rejects, for the key, the value and every header value", "SerializedMessage.valid can reject a size of -1 ("+w.String()+"): Encode writes a nil header value (an envelope whose headers entry has no value) as -1 and the leader stores and serves the message, but every follower refuses every replication response that contains it — replication of the partition stalls permanently")
 }
+
+// ruleHWCheckpointIsReplacedAtomically (R05.2, shared into C03): the high-watermark checkpoint is what a restarted server takes
+// for "committed". It is replaced as a whole (atomic.WriteFile): a checkpoint overwritten in place keeps the tail of a longer
+// earlier value ("-1" overwritten by "5" reads back as 51), and committed readers are handed the uncommitted tail of the log.
+func ruleHWCheckpointIsReplacedAtomically(c *eng.Ctx) {
+	fn := c.Fn(cl + "(*commitLog).checkpointHW")
+	if fn == nil {
+		return
+	}
+	aw := eng.CallsIn(fn, "github.com/natefinch/atomic.WriteFile")
+	raw := eng.CallsIn(fn, "os.WriteFile", "os.Create", "os.OpenFile", "io/ioutil.WriteFile", "os.File.Write", "os.File.WriteString", "os.File.WriteAt")
+	c.Check(len(aw) == 1 && len(raw) == 0, "checkpointHW replaces the high-watermark checkpoint atomically", c.P.Pos(fn.Pos()), "atomic.WriteFile and no other write", "checkpointHW does not replace its checkpoint as a whole: written in place, a shorter value leaves the tail of a longer earlier one behind (\"-1\" then \"5\" is read back as 51), so after a restart the log takes uncommitted messages for committed and hands them to subscribers")
+}
